@@ -262,6 +262,24 @@ static inline int verif_epoll_wait(int epfd, struct epoll_event* ev, int maxev, 
   return ::detsched::epoll_wait_hook(epfd, ev, maxev, timeout);
 }
 
+// io_uring_enter (issued through syscall(2) by source/linux/io_uring_syscall.cpp) under detsched: submissions go straight through,
+// waiting for completions never blocks in the kernel while this thread holds the run token
+#include <sys/syscall.h>
+#include <unistd.h>
+template <class... A>
+static inline long verif_syscall(long nr, A... a) {
+#ifdef __NR_io_uring_enter
+  if (nr == __NR_io_uring_enter && ::detsched::active()) {
+    if constexpr (sizeof...(A) == 6) return ::detsched::uring_enter_hook(a...);
+  }
+#else
+  if (nr == 426 && ::detsched::active()) {
+    if constexpr (sizeof...(A) == 6) return ::detsched::uring_enter_hook(a...);
+  }
+#endif
+  return ::syscall(nr, a...);
+}
+
 // readv / writev inside libunifex's I/O contexts: generated faults (fail with a chosen errno) and short transfers
 #include <sys/uio.h>
 static inline ssize_t verif_readv(int fd, const struct iovec* iov, int n) {
@@ -290,6 +308,7 @@ static inline ssize_t verif_writev(int fd, const struct iovec* iov, int n) {
 #define sleep_for verif_sleep_for
 #define steady_clock verif_steady_clock
 #define epoll_wait verif_epoll_wait
+#define syscall verif_syscall
 #define readv verif_readv
 #define writev verif_writev
 
